@@ -16,6 +16,13 @@
   (`c20_unwaited_call_witness`; `c20_throughput_bound_waited_partial` is the bound under "no call
   was refused").
 
+  A call blocked in one direction's `WaitN` does not delay the other direction of the same connection
+  (`c20_progress_independent`; a connection-level lock held across the wait would:
+  `c20_shared_mutex_witness`).  The bound holds over every history of listener events — closing the
+  listener or starting the shutdown changes nothing for the connections in flight
+  (`c20_bound_survives_listener_close`; waits on a context that `Close` cancels would break it:
+  `c20_cancelled_context_witness`).
+
   Two hypotheses exclude what the code really does wrong, each with a kernel-checked witness:
   `w ≤ B` (a call larger than the burst is not throttled, F27) and time-ordered stamps (concurrent
   callers reach the bucket out of order and x/time/rate credits the backward step twice, F28 — the
@@ -376,6 +383,174 @@ example : validSched (newListener 1048576 0) 2097152 2
     (run (newListener 1048576 0) (Sys.init (newListener 1048576 0))
       [⟨0, 0, .tx, 2097152⟩, ⟨0, 1, .tx, 2097152⟩, ⟨0, 0, .rx, 999⟩, ⟨0, 0, .tx, 1048576⟩,
        ⟨1000000000, 0, .tx, 1048576⟩]).2 = [0, 0, 0, 1000000000, 2000000000] := by
+  decide
+
+/-! ### the schedule layer: a wait in one direction does not delay the other direction
+
+`c20_direction_independence` above is about the token arithmetic.  A connection that carries both
+directions at once has a goroutine in `Read` and one in `Write`; each waits in its own queue
+(`readWait` / `writeWait`), `Conn` takes no lock of its own. -/
+
+/-- **Progress of a direction is a function of that direction alone.** Whatever the interleaving
+    with the calls of the other direction (on the same and on other connections), the return times
+    of direction `d`'s calls are those of `d`'s calls run alone against `d`'s limiter, from `d`'s
+    limiter state and `d`'s queue: a call blocked in the other direction's `WaitN` delays nothing. -/
+theorem c20_progress_independent (L : Listener) (d : Dir) (ops : List QOp) (s : Duplex) :
+    retsQ L d s ops = soloQ (L.limiter d) (s.sys.get d) (s.wait d) (projQ d ops) :=
+  retsQ_solo L d ops s
+
+/-- the same as non-interference: two schedules with the same calls in direction `d`, started from
+    states that agree on `d`'s limiter and `d`'s queue, complete `d`'s calls at the same times —
+    in particular the completion time of an upload is the same whether the download of the same
+    connection is stalled in `WaitN` or idle. -/
+theorem c20_progress_noninterference (L : Listener) (d : Dir) (ops ops' : List QOp) (s s' : Duplex)
+    (hs : s.sys.get d = s'.sys.get d) (hq : s.wait d = s'.wait d) (hp : projQ d ops = projQ d ops') :
+    retsQ L d s ops = retsQ L d s' ops' := by
+  rw [c20_progress_independent, c20_progress_independent, hs, hq, hp]
+
+/-- non-vacuity: read limit 1 B/s (burst 2 B: hand-made limiter), write limit 1 B/ns (burst 4 B); on
+    connection 0 the second `Write` waits 2 s for its tokens; the `Read`s issued meanwhile return at
+    once, exactly as with the writes absent. -/
+example : retsQ ⟨some ⟨1000000000, 4⟩, some ⟨1, 2⟩⟩ .rx (Duplex.init ⟨some ⟨1000000000, 4⟩, some ⟨1, 2⟩⟩)
+      [⟨0, .tx, 0, 2⟩, ⟨0, .tx, 0, 2⟩, ⟨0, .rx, 5, 1⟩, ⟨0, .rx, 5, 1⟩] = [5, 10] ∧
+    retsQ ⟨some ⟨1000000000, 4⟩, some ⟨1, 2⟩⟩ .tx (Duplex.init ⟨some ⟨1000000000, 4⟩, some ⟨1, 2⟩⟩)
+      [⟨0, .tx, 0, 2⟩, ⟨0, .tx, 0, 2⟩, ⟨0, .rx, 5, 1⟩, ⟨0, .rx, 5, 1⟩] = [0, 2000000000] ∧
+    retsQ ⟨some ⟨1000000000, 4⟩, some ⟨1, 2⟩⟩ .rx (Duplex.init ⟨some ⟨1000000000, 4⟩, some ⟨1, 2⟩⟩)
+      [⟨0, .rx, 5, 1⟩, ⟨0, .rx, 5, 1⟩] = [5, 10] := by
+  decide
+
+/-- Non-interference for a `Conn` that holds a connection-level mutex across `WaitN` (`stepM`). It is
+    **false** (`c20_shared_mutex_witness`): this is why `Conn.Read/Write` must not share a lock that
+    is held while waiting. -/
+def c20_shared_mutex_full_statement : Prop :=
+  ∀ (L : Listener) (d : Dir) (ops ops' : List QOp) (s s' : DuplexM),
+    s.sys.get d = s'.sys.get d → s.wait d = s'.wait d → projQ d ops = projQ d ops' →
+    retsM L d s ops = retsM L d s' ops'
+
+/-- with the shared mutex the schedule of the example above completes its `Read` after the 2 s wait
+    of the `Write`, although the same `Read` alone completes after 5 ns. -/
+theorem c20_shared_mutex_witness : ¬ c20_shared_mutex_full_statement := by
+  intro h
+  have := h ⟨some ⟨1000000000, 4⟩, some ⟨1, 2⟩⟩ .rx
+    [⟨0, .tx, 0, 2⟩, ⟨0, .tx, 0, 2⟩, ⟨0, .rx, 5, 1⟩] [⟨0, .rx, 5, 1⟩]
+    (DuplexM.init ⟨some ⟨1000000000, 4⟩, some ⟨1, 2⟩⟩) (DuplexM.init ⟨some ⟨1000000000, 4⟩, some ⟨1, 2⟩⟩)
+    rfl rfl (by decide)
+  revert this
+  decide
+
+example : retsM ⟨some ⟨1000000000, 4⟩, some ⟨1, 2⟩⟩ .rx (DuplexM.init ⟨some ⟨1000000000, 4⟩, some ⟨1, 2⟩⟩)
+      [⟨0, .tx, 0, 2⟩, ⟨0, .tx, 0, 2⟩, ⟨0, .rx, 5, 1⟩] = [2000000000] ∧
+    retsM ⟨some ⟨1000000000, 4⟩, some ⟨1, 2⟩⟩ .rx (DuplexM.init ⟨some ⟨1000000000, 4⟩, some ⟨1, 2⟩⟩)
+      [⟨0, .rx, 5, 1⟩] = [5] ∧
+    -- a direction without a limiter never takes the mutex: the pairs (R, 0) and (0, W) are unaffected
+    retsM ⟨none, some ⟨1, 2⟩⟩ .rx (DuplexM.init ⟨none, some ⟨1, 2⟩⟩)
+      [⟨0, .tx, 0, 2⟩, ⟨0, .tx, 0, 2⟩, ⟨0, .rx, 5, 1⟩] = [5] := by
+  decide
+
+/-- in general, with the shared mutex: a limited call returns no earlier than the moment the
+    connection's mutex is released, and it holds the mutex until it returns itself — so a call of the
+    fast direction issued while the slow direction waits completes no earlier than that wait. -/
+theorem c20_shared_mutex_blocks_other_direction (L : Listener) (s : DuplexM) (slow fast : QOp)
+    (l₁ l₂ : Limiter) (h1 : L.limiter slow.dir = some l₁) (h2 : L.limiter fast.dir = some l₂)
+    (n1 : slow.n ≠ 0) (n2 : fast.n ≠ 0) (hc : fast.conn = slow.conn) :
+    (stepM L s slow).2 ≤ (stepM L (stepM L s slow).1 fast).2 := by
+  have hmu : (stepM L s slow).1.mu slow.conn = (stepM L s slow).2 := by
+    unfold stepM
+    cases hd : slow.dir <;> simp [hd ▸ h1, n1, upd]
+  have hret : ∀ (s' : DuplexM), s'.mu fast.conn ≤ (stepM L s' fast).2 := by
+    intro s'
+    unfold stepM
+    cases hd : fast.dir <;> simp only [hd ▸ h2, n2, Option.isSome_some, ne_eq, not_false_eq_true, decide_true,
+      Bool.and_self, if_true] <;>
+    · split
+      · exact c20_return_not_before_io L s'.sys ⟨_, _, _, _⟩
+      · rename_i hlt
+        exact Nat.le_trans (Nat.le_of_not_lt hlt) (c20_return_not_before_io L s'.sys ⟨_, _, _, _⟩)
+  rw [← hmu, ← hc]
+  exact hret _
+
+/-! ### the wait context: the bound does not depend on the listener being open -/
+
+/-- The calls of a listener's history wait exactly as the same calls without the lifecycle events:
+    the context `Conn` hands to `WaitN` (`context.Background()`) is never done, whatever has happened
+    to the listener or to `Run`'s context. -/
+theorem c20_wait_ignores_lifecycle (l : Limiter) (h : List HEv) (s : HSt) :
+    connWaitCtx.done s.life = false ∧
+    (runH connWaitCtx l s h).run = runB l s.run (callsOf h) :=
+  ⟨rfl, runH_live connWaitCtx l h s (live_conn h s.life)⟩
+
+/-- **The throughput bound over every history of listener events.** For every history in which calls
+    on the `k` accepted connections are interleaved with `Listener.Close` / re-open / cancellation of
+    `Run`'s context in any order, started in any lifecycle state, the bytes whose I/O completed in
+    `[t₀,t₁]` obey the bound: transfers in flight stay throttled after the listener was closed and
+    for the whole graceful shutdown. -/
+theorem c20_bound_survives_listener_close (l : Limiter) (w k : Nat) (h : List HEv) (lf : Life) (t0 t1 : Nat)
+    (hR : 0 < l.rate) (hw : w ≤ l.burst)
+    (hv : validH connWaitCtx l w { run := initRun l k, life := lf } h = true) (h01 : t0 ≤ t1) :
+    bytesIn (callsOf h) t0 t1 * nsPerSec ≤ (l.burst + k * w) * nsPerSec + l.rate * (t1 - t0 + 1) :=
+  c20_throughput_bound_partial l w k (callsOf h) t0 t1 hR hw
+    (validH_live connWaitCtx l w h { run := initRun l k, life := lf } (live_conn h lf) hv) h01
+
+/-- non-vacuity: rate 2 B/s, burst 4 B, one connection; the listener is closed after the burst has
+    gone, `Run`'s context is cancelled later; the calls after the close wait 1 s each as before. -/
+example : validH connWaitCtx ⟨2, 4⟩ 2 ⟨initRun ⟨2, 4⟩ 1, Life.start⟩
+      [.call ⟨0, 0, 2⟩, .call ⟨0, 0, 2⟩, .listenerClose, .call ⟨0, 0, 2⟩, .runCancel, .call ⟨1000000000, 0, 2⟩] = true ∧
+    retsH connWaitCtx ⟨2, 4⟩ ⟨initRun ⟨2, 4⟩ 1, Life.start⟩
+      [.call ⟨0, 0, 2⟩, .call ⟨0, 0, 2⟩, .listenerClose, .call ⟨0, 0, 2⟩, .runCancel, .call ⟨1000000000, 0, 2⟩] =
+      [0, 0, 1000000000, 2000000000] := by
+  decide
+
+/-- The same bound for a `Conn` whose waits run on context `cx`. For a context that the listener's
+    `Close` (or the start of the shutdown) cancels it is **false** (`c20_cancelled_context_witness`). -/
+def c20_cancellable_context_full_statement (cx : WaitCtx) : Prop :=
+  ∀ (l : Limiter) (w k : Nat) (h : List HEv) (lf : Life) (t0 t1 : Nat),
+    0 < l.rate → w ≤ l.burst → validH cx l w { run := initRun l k, life := lf } h = true → t0 ≤ t1 →
+    bytesIn (callsOf h) t0 t1 * nsPerSec ≤ (l.burst + k * w) * nsPerSec + l.rate * (t1 - t0 + 1)
+
+/-- a wait on a context that is done returns at once and takes no tokens: rate 1 B/s, burst 2 B, one
+    connection.  The first call takes the burst; the listener is closed (resp. the shutdown starts);
+    every later call returns immediately, so the connection may call again at once: 8 bytes move at
+    the instant 0 although `B + k·w + R·1 ns` allows 4 — and every further call adds 2 more. -/
+theorem c20_cancelled_context_witness :
+    ¬ c20_cancellable_context_full_statement .listener ∧ ¬ c20_cancellable_context_full_statement .run := by
+  constructor
+  · intro h
+    have := h ⟨1, 2⟩ 2 1 [.call ⟨0, 0, 2⟩, .listenerClose, .call ⟨0, 0, 2⟩, .call ⟨0, 0, 2⟩, .call ⟨0, 0, 2⟩]
+      Life.start 0 0 (by decide) (by decide) (by decide) (by decide)
+    revert this
+    decide
+  · intro h
+    have := h ⟨1, 2⟩ 2 1 [.call ⟨0, 0, 2⟩, .runCancel, .call ⟨0, 0, 2⟩, .call ⟨0, 0, 2⟩, .call ⟨0, 0, 2⟩]
+      Life.start 0 0 (by decide) (by decide) (by decide) (by decide)
+    revert this
+    decide
+
+/-- the calls after the close of the witness leave the bucket untouched, and the same history is not
+    a valid schedule for the code's own context (the connection is still waiting at time 0). -/
+example : (runH .listener ⟨1, 2⟩ ⟨initRun ⟨1, 2⟩ 1, Life.start⟩
+        [.call ⟨0, 0, 2⟩, .listenerClose, .call ⟨0, 0, 2⟩, .call ⟨0, 0, 2⟩]).run.st =
+      (runH .listener ⟨1, 2⟩ ⟨initRun ⟨1, 2⟩ 1, Life.start⟩ [.call ⟨0, 0, 2⟩]).run.st ∧
+    retsH .listener ⟨1, 2⟩ ⟨initRun ⟨1, 2⟩ 1, Life.start⟩
+        [.call ⟨0, 0, 2⟩, .listenerClose, .call ⟨0, 0, 2⟩, .call ⟨0, 0, 2⟩] = [0, 0, 0] ∧
+    retsH connWaitCtx ⟨1, 2⟩ ⟨initRun ⟨1, 2⟩ 1, Life.start⟩
+        [.call ⟨0, 0, 2⟩, .listenerClose, .call ⟨0, 0, 2⟩] = [0, 2000000000] ∧
+    validH connWaitCtx ⟨1, 2⟩ 2 ⟨initRun ⟨1, 2⟩ 1, Life.start⟩
+        [.call ⟨0, 0, 2⟩, .listenerClose, .call ⟨0, 0, 2⟩, .call ⟨0, 0, 2⟩] = false := by
+  decide
+
+/-- **The bound needs exactly that no call found its context done.** Whatever context the waits run
+    on, a valid history in which every call reached the limiter while that context was live obeys
+    the bound. -/
+theorem c20_bound_live_context_partial (cx : WaitCtx) (l : Limiter) (w k : Nat) (h : List HEv) (lf : Life)
+    (t0 t1 : Nat) (hR : 0 < l.rate) (hw : w ≤ l.burst) (hl : liveAtCalls cx lf h = true)
+    (hv : validH cx l w { run := initRun l k, life := lf } h = true) (h01 : t0 ≤ t1) :
+    bytesIn (callsOf h) t0 t1 * nsPerSec ≤ (l.burst + k * w) * nsPerSec + l.rate * (t1 - t0 + 1) :=
+  c20_throughput_bound_partial l w k (callsOf h) t0 t1 hR hw
+    (validH_live cx l w h { run := initRun l k, life := lf } hl hv) h01
+
+example : liveAtCalls .listener Life.start [.call ⟨0, 0, 2⟩, .call ⟨0, 0, 2⟩, .listenerClose] = true ∧
+    liveAtCalls .listener Life.start [.call ⟨0, 0, 2⟩, .listenerClose, .call ⟨0, 0, 2⟩] = false ∧
+    liveAtCalls .listener Life.start [.listenerClose, .listenerOpen, .call ⟨0, 0, 2⟩] = true := by
   decide
 
 end C20
